@@ -539,6 +539,7 @@ def run(tier, seed, replay=None):
         "recording deletes) and no-op metrics; HandlePFCPMsg / sendAssociationRequest / startHeartBeatMonitor are the real ones; "
         "PFCPNode, Serve and real sockets are not used (the harness' reader goroutine hands datagrams to HandlePFCPMsg one at a time as Serve's does)",
         "go-pfcp codec (message.Parse / MarshalTo; 3-octet sequence number) on both sides of the fake connection",
+        "harness/go/verif_l1_test.go for the one scenario with the real bess plug-in: in-process BESS gRPC server that is stopped and restarted",
         "Go runtime timers (time.Timer / time.Ticker never fire early); timestamps are monotonic time.Since values",
     ]
     ck.assumptions = [
@@ -633,6 +634,14 @@ def run(tier, seed, replay=None):
             cov["own_teardown"] += 1 if v.own_teardown else 0
             cov["aborted"] += 1 if v.harness_shutdown is not None else 0
             cov["retransmissions"] += sum(len(X["tx"]) - 1 for X in v.xs)
+    # the real BESS plug-in behind the association handler: its gRPC channel to an in-process BESS server that goes away
+    # and comes back (L1 harness, tools/l1.py soak_scenarios "datapath-down-and-up")
+    if replay is None:
+        from props.l1common import run_soak
+        import l1
+        d2 = {}
+        run_soak(ck, binary, rng, lambda c_, it, ob: [f for f in l1.mon_c02(c_, it, ob)], d2, only=["datapath-down-and-up"])
+        dist.update(d2)
     ck.distribution = {"classes": dist, "model_branches_hit": cov, "coq_case_terms": nterms}
     ck.samples = [{"input": c, "impl": {k: (v[:6] if isinstance(v, list) else v) for k, v in o.items()}}
                   for c, o in list(zip(cases, obs))[-2:]]
